@@ -8,17 +8,19 @@
 use super::*;
 
 /// 95% chi-square quantile for the filter's measurement dimension (2 degrees of freedom).
-const GATE: f32 = CHI2INV95[DIM_2D_POINT - 1];
+/// (written out: the oracle does not read the library's table, nor depends on what the source file imports)
+const GATE: f32 = 5.9915;
+const UPPER: f32 = 100.0;
 
 pub(super) fn post_direct(d: f32, inverted: bool, r: f32) -> bool {
-    inverted || r == if d > GATE { CHI2_UPPER_BOUND } else { d }
+    inverted || r == if d > GATE { UPPER } else { d }
 }
 pub(super) fn post_inverted(d: f32, inverted: bool, r: f32) -> bool {
-    !inverted || r == if d > GATE { 0.0 } else { CHI2_UPPER_BOUND - d }
+    !inverted || r == if d > GATE { 0.0 } else { UPPER - d }
 }
 
 //@H props=C07 kind=proof tier=quick stubs=no fn=Point2DKalmanFilter::calculate_cost
-//@H clause: for every finite d >= 0 and both flags: direct == (d > G ? 100 : d), inverted == (d > G ? 0 : 100 - d) with the same G = CHI2INV95[dof-1], dof = 2
+//@H clause: for every finite d >= 0 and both flags: direct == (d > G ? 100 : d), inverted == (d > G ? 0 : 100 - d) with the same G = 5.9915 (95% chi-square quantile, 2 degrees of freedom)
 #[kani::proof_for_contract(Point2DKalmanFilter::calculate_cost)]
 fn c07_point_cost_contract() {
     let d: f32 = kani::any();
@@ -39,5 +41,5 @@ fn c07_point_cost_lemma() {
     let direct = Point2DKalmanFilter::calculate_cost(d, false);
     let inverted = Point2DKalmanFilter::calculate_cost(d, true);
     kani::cover!(true, "reach/c07_point_cost_lemma");
-    assert!(inverted == CHI2_UPPER_BOUND - direct, "C07/point.lemma.inverted_is_upper_minus_direct: inverted == 100 - direct follows from the contract");
+    assert!(inverted == UPPER - direct, "C07/point.lemma.inverted_is_upper_minus_direct: inverted == 100 - direct follows from the contract");
 }
